@@ -14,7 +14,7 @@ ID = "C03"
 LEVEL = "exploration"
 RULE = ("each forked case registers extractors (healthy or raising) on a random subset of the classes occurring in the MROs of "
         "the exception pool, then runs a ProgGen program (random part) or a systematic chain (matrix part: every exception class "
-        "x nesting depth 1..5 x action style, innermost raises and crosses all enclosing actions); further registrations / replacements are made between the top-level parts of a program, so later failures must see them. Oracle over the healthy "
+        "x nesting depth 1..5 x action style, innermost raises and crosses all enclosing actions); further registrations / replacements are made between the top-level parts of a program, so later failures must see them. A third of the explicit logger arguments is an application-defined ILogger whose write() returns a truthy value. Oracle over the healthy "
         "destination's tape: per action exactly one 'started' and one end message; failed iff an exception escaped the body; "
         "exception=module.Class, reason=str(exc) when str works; extractor fields = those of the nearest registered class in the MRO "
         "({} plus exactly one eliot:traceback when it raises); start fields only on start, success fields only on succeeded; repeated "
